@@ -13,25 +13,25 @@ import (
 
 // Step changes the scripted latency of one target at a call index of the measured phase.
 type Step struct {
-	At     int `json:"at"`
-	Target int `json:"target"`
-	LatUS  int `json:"lat_us"`
+	At     int  `json:"at"`
+	Target int  `json:"target"`
+	LatUS  int  `json:"lat_us"`
 	Down   bool `json:"down,omitempty"`
 }
 
 // Case is a stable target set, a latency script and a sequential caller.
 type Case struct {
-	Policy  int     `json:"policy"` // 0 round robin, 1 random, 2 least time
-	N       int     `json:"n"`      // targets
-	Dup     bool    `json:"dup"`    // the target list contains duplicates and an empty string
-	Dead    int     `json:"dead,omitempty"` // extra listed targets that are never reachable (the detector keeps re-checking them)
-	PauseUS int     `json:"pause_us,omitempty"` // pause between calls (lets the measured phase span several detector periods)
-	BaseUS  []int   `json:"base_us"`
-	Steps   []Step  `json:"steps"`
-	Calls   int     `json:"calls"`
-	Alpha   float64 `json:"alpha"`
-	TickKind string `json:"tick_kind"` // every (1ns) | never (1h) | some (30ms)
-	Forms   []string `json:"forms"`
+	Policy   int      `json:"policy"`             // 0 round robin, 1 random, 2 least time
+	N        int      `json:"n"`                  // targets
+	Dup      bool     `json:"dup"`                // the target list contains duplicates and an empty string
+	Dead     int      `json:"dead,omitempty"`     // extra listed targets that are never reachable (the detector keeps re-checking them)
+	PauseUS  int      `json:"pause_us,omitempty"` // pause between calls (lets the measured phase span several detector periods)
+	BaseUS   []int    `json:"base_us"`
+	Steps    []Step   `json:"steps"`
+	Calls    int      `json:"calls"`
+	Alpha    float64  `json:"alpha"`
+	TickKind string   `json:"tick_kind"` // every (1ns) | never (1h) | some (30ms)
+	Forms    []string `json:"forms"`
 }
 
 var bases = []int{200, 1000, 3000, 8000, 20000}
@@ -316,6 +316,62 @@ func run(c Case) kit.Outcome {
 		}
 	}
 	out := kit.Outcome{Counters: map[string]int{"routed": len(routed)}, Classes: []string{fmt.Sprintf("policy=%d", c.Policy), "tick=" + c.TickKind}}
+	// LeastTime with Tick 30 ms: probes go round the live targets. A call issued more than a Tick
+	// after the previous probe is a probe for certain; the calls right behind it are not. With a
+	// stable set of n targets any n consecutive such designated probes reach n distinct targets.
+	stable := true
+	for _, st := range c.Steps {
+		if st.Down {
+			stable = false
+		}
+	}
+	if c.Policy == 2 && c.TickKind == "some" && stable && len(downAt) == 0 {
+		var designated []int
+		judged := true
+		for r := 0; r < 2*c.N+1 && judged; r++ {
+			time.Sleep(tick + 8*time.Millisecond)
+			start := time.Now()
+			pr, ok := one("call")
+			if !ok {
+				return kit.Undecided("probe call did not return")
+			}
+			if pr.ID < 0 || pr.Addr == "" {
+				judged = false
+				break
+			}
+			designated = append(designated, index[pr.Addr])
+			updateEst(index[pr.Addr], pr, "call")
+			for q := 0; q < 1+r%2; q++ {
+				if time.Since(start) > tick*6/10 {
+					// too late to be sure the next call would not be a probe itself: skipped
+					break
+				}
+				qr, ok := one("call")
+				if !ok {
+					return kit.Undecided("call did not return")
+				}
+				if qr.ID >= 0 && qr.Addr != "" {
+					updateEst(index[qr.Addr], qr, "call")
+				}
+			}
+		}
+		if judged {
+			out.Classes = append(out.Classes, "probe-rotation-judged")
+			for s0 := 0; s0+c.N <= len(designated); s0++ {
+				seenW := map[int]bool{}
+				for _, i := range designated[s0 : s0+c.N] {
+					seenW[i] = true
+				}
+				if len(seenW) != c.N {
+					o := kit.Fail("probe-rotation", "LeastTime with Tick 30 ms: %d consecutive probes (calls issued more than a Tick after the previous probe, with ordinary calls in between) went to targets %v, which are not %d distinct targets: probes do not rotate over the live targets", c.N, designated[s0:s0+c.N], c.N)
+					o.History, o.Timing = append(hist, fmt.Sprintf("designated probes: %v", designated)), true
+					return o
+				}
+			}
+		} else {
+			out.Counters["probe_rotation_unjudged"] = 1
+		}
+	}
 	switch {
 	case c.Policy == 0 || (c.Policy == 2 && c.TickKind == "every" && len(c.Steps) == 0):
 		// rotation: any n consecutive calls hit n distinct targets
@@ -371,7 +427,7 @@ func run(c Case) kit.Outcome {
 var prop = kit.Property[Case]{
 	ID:    "C17",
 	Level: "exploration",
-	Rule:  "rapid-generated cases against a real Client over a scripted fake RoundTripper with 2-6 stable live targets (optionally listed with duplicates and an empty string), a sequential caller (routing order == arrival order), scripted per-target latency (0.2-20 ms) with up to 3 step changes / outages during 3n-12n measured calls, Alpha in {0,0.2,0.8,1}, Tick in {1 ns, 30 ms, 1 h}; warm-up with Tick 1 ns until every target was called twice. Oracle: RoundRobin (and LeastTime with Tick 1 ns, where every call is a probe) sends any n consecutive calls to n distinct targets; Random only routes to listed targets; LeastTime is judged against an interval-arithmetic model of the documented estimate (first sample replaces the maximum, then old*Alpha+new*(1-Alpha), unreachable -> maximum) fed with the durations measured inside the fake transport (+2 ms or 50% slack): with Tick 1 h no call goes to a target whose estimate interval lies strictly above another's; with Tick 30 ms such calls (probes) are at most one per Tick. Non-trivial: LeastTime with >= 2 distinct base latencies, >= 1 step change and n >= 3, or n >= 3 with >= 2n routed calls for the other policies; distinct by SHA-1 of the case.",
+	Rule:  "rapid-generated cases against a real Client over a scripted fake RoundTripper with 2-6 stable live targets (optionally listed with duplicates and an empty string), a sequential caller (routing order == arrival order), scripted per-target latency (0.2-20 ms) with up to 3 step changes / outages during 3n-12n measured calls, Alpha in {0,0.2,0.8,1}, Tick in {1 ns, 30 ms, 1 h}; warm-up with Tick 1 ns until every target was called twice. Oracle: RoundRobin (and LeastTime with Tick 1 ns, where every call is a probe) sends any n consecutive calls to n distinct targets; Random only routes to listed targets; LeastTime is judged against an interval-arithmetic model of the documented estimate (first sample replaces the maximum, then old*Alpha+new*(1-Alpha), unreachable -> maximum) fed with the durations measured inside the fake transport (+2 ms or 50% slack): with Tick 1 h no call goes to a target whose estimate interval lies strictly above another's; with Tick 30 ms such calls (probes) are at most one per Tick, and n consecutive designated probes (calls issued more than a Tick after the previous probe, with ordinary calls in between) reach n distinct targets when the live set is stable. Non-trivial: LeastTime with >= 2 distinct base latencies, >= 1 step change and n >= 3, or n >= 3 with >= 2n routed calls for the other policies; distinct by SHA-1 of the case.",
 	Assumptions: []string{
 		"the latency estimate itself is not read (no hook); it is decided through its only observable effect, the choice, where the model makes the choice unambiguous",
 		"the client-side measured duration lies within [fake-transport duration, that + max(2 ms, 50%)]; a miss must reproduce in isolation",
